@@ -42,9 +42,9 @@ INVARIANT SrcSameCalls
 logging.getLogger().addHandler(logging.NullHandler())   # ppci warns through logging; keep the check's output clean
 IR_INT = {"i8": 1, "u8": 1, "i16": 2, "u16": 2, "i32": 4, "u32": 4, "i64": 8, "u64": 8}
 WORKERS = 8
-QUICK_PROBES = 300            # sampled probes in the quick tier (plus the sentinels); thorough runs all of them
+QUICK_PROBES = 600            # sampled probes in the quick tier (plus the sentinels); thorough runs all of them
 QUICK_PROBE_VECTORS = 4
-QUICK_PROGRAMS = 40
+QUICK_PROGRAMS = 50
 THOROUGH_PROBE_VECTORS = 8
 # probes that are always run with all their vectors: they decide which construct classes the random programs avoid
 SENTINELS = {"bin:<:c8,u8", "bin:>=:i16,u16", "bin:==:c8,u16", "unary:-:u8", "unary:~:u16", "unary:-:c8",
@@ -656,7 +656,7 @@ def micro_cases():
 def model_check(ctx):
     cases = micro_cases()
     path = ctx.trace_file(cases, "micro.json")
-    nv = 13 if ctx.tier == "thorough" else 5
+    nv = 13 if ctx.tier == "thorough" else 7
     obsdir = tempfile.mkdtemp(prefix="mcobs_", dir=ctx.workdir)
     res = ctx.tlc("Src_MC", MC_CFG % nv, label="Src_MC laws + micro programs", env={"TRACE_FILE": path, "OBS_DIR": obsdir},
                   continue_=True, workers=WORKERS, coverage=False)
@@ -697,8 +697,8 @@ class Engine:
                  "type of their result, 10 compound assignments on locals and on array elements, ++/--, unary operators, casts, "
                  "conversion on return / initialisation / argument passing / store, ?:, p[i] and a[i] with every index type, literal "
                  "typing, switch on every type, struct layouts) on boundary-value argument vectors (quick: the sentinel probes + a seeded "
-                 "sample of 300 of the probes, 4 vectors each; thorough: all probes, 8 vectors each).  Stage 2, random programs of "
-                 "harness/absprog.py (functions, loops, switch, arrays, structs, pointers into arrays, calls, external calls; 40 x 6 "
+                 "sample of 600 of the probes, 4 vectors each; thorough: all probes, 8 vectors each).  Stage 2, random programs of "
+                 "harness/absprog.py (functions, loops, switch, arrays, structs, pointers into arrays, calls, external calls; 50 x 6 "
                  "vectors quick, 200 x 8 thorough), generated without the construct classes whose probes failed in stage 1.  Every "
                  "(program, vector) is executed by TLC under Src.tla; those ending 'ok' are compared by TLC with the execution of ppci's "
                  "IR under IR.tla (Src_IR.tla).  distinct = distinct (program, vector) pairs compared; undefined / implementation-defined / "
